@@ -1130,6 +1130,71 @@ func runC04(c *core.Ctx) core.Meta {
 		}
 	}
 
+	// ---------------- R04.13 a cache of decoded instructions is keyed by everything the bytes depend on ----------------
+	st13 := c.Rule("R04.13", "where a decoded instruction is stored in a map (a decode cache), the key carries every non-constant argument of the memory read that produced the decoded bytes (the process and the address): instruction memory is per process, and every process starts allocating at the same virtual address", 1)
+	for _, rel := range []string{"amd/emu", "amd/timing/cu"} {
+		for _, fn := range c.SrcFuncs(rel) {
+			for _, b := range fn.Blocks {
+				for _, in := range b.Instrs {
+					mu, ok := in.(*ssa.MapUpdate)
+					if !ok {
+						continue
+					}
+					if namedTypeName(mu.Value.Type()) != "insts.Inst" {
+						continue
+					}
+					// the Decode call whose result is stored, and the Read feeding it
+					var deps []string
+					var walk func(v ssa.Value, d int)
+					seenV := map[ssa.Value]bool{}
+					walk = func(v ssa.Value, d int) {
+						if v == nil || seenV[v] || d > 8 {
+							return
+						}
+						seenV[v] = true
+						switch t := v.(type) {
+						case *ssa.Phi:
+							for _, e := range t.Edges {
+								walk(e, d+1)
+							}
+						case *ssa.Extract:
+							walk(t.Tuple, d+1)
+						case *ssa.Call:
+							if t.Call.IsInvoke() && t.Call.Method.Name() == "Decode" {
+								walk(t.Call.Args[0], d+1)
+							}
+							if t.Call.IsInvoke() && t.Call.Method.Name() == "Read" {
+								for _, a := range t.Call.Args {
+									if _, isC := a.(*ssa.Const); !isC {
+										deps = append(deps, prov.Of(a))
+									}
+								}
+							}
+						}
+					}
+					walk(mu.Value, 0)
+					if len(deps) == 0 {
+						continue
+					}
+					st13.Instances++
+					c.MarkAnalysed(fn)
+					kp := prov.Of(mu.Key)
+					missing := ""
+					for _, dp := range deps {
+						if !strings.Contains(kp, dp) {
+							missing = dp
+						}
+					}
+					st13.Ob(missing == "")
+					st13.Sample("%s: decode cache key %s covers %v", core.FuncName(fn), short(kp), deps)
+					if missing != "" {
+						c.ReportAt("R04.13", fn, in.Pos(), "decode-cache-key", core.FuncName(fn)+" caches a decoded instruction under "+short(kp)+", but the decoded bytes were read with "+short(missing)+": another process with different code at the same address is given these instructions")
+					}
+				}
+			}
+		}
+	}
+
 	// ---------------- R04.6 callers use the error path ----------------
 	st6 := c.Rule("R04.6", "every caller of Disassembler.Decode uses the decoded instruction only on paths on which the returned error was found nil", 3)
 	for _, rel := range []string{instsPkg, "amd/emu", "amd/timing/cu"} {
